@@ -290,6 +290,9 @@ def check_uses(ctx, rep, f, name, role, gfuncs, seen):
             ok = True   # interpolated into message text
         elif isinstance(p, ast.Assign) and role == "tok-input" and p.value is n:
             ok = True   # alias that is iterated below (list form)
+        elif isinstance(p, ast.IfExp) and n is not p.test and role == "tok-input" and isinstance(parents.get(id(p)), ast.Assign) \
+                and parents[id(p)].value is p:
+            ok = True   # the same alias, chosen by a conditional expression:  it = x if <already split> else tokenizer(x)
         elif isinstance(p, ast.Return) and role == "tok-input" and f not in gfuncs and _only_called_from(ctx, f, gfuncs):
             ok = True   # handed back to the filtering generator (list form)
         elif isinstance(p, ast.Compare) and role in ("raw", "msg", "fragment"):
